@@ -276,6 +276,7 @@ theorem instNodes_bound (g : Graph) (ip : Nat × Package) (h : ip ∈ instNodes 
   cases hk : nd.kind with
   | imp _ => rw [hk] at hfx; cases hfx
   | alias _ _ => rw [hk] at hfx; cases hfx
+  | defn _ => rw [hk] at hfx; cases hfx
   | inst pkg =>
     rw [hk] at hfx
     simp only at hfx
@@ -329,6 +330,7 @@ theorem instCount_eq (g : Graph) (hwf : GraphWF g) : g.instCount = (instNodes g)
   cases hk : nd.kind with
   | imp _ => simp [NodeKind.isInst]
   | alias _ _ => simp [NodeKind.isInst]
+  | defn _ => simp [NodeKind.isInst]
   | inst pkg =>
     rw [hk] at hok
     have : pkg < g.packages.length := hok.1
